@@ -34,8 +34,10 @@ def interval_cases(mode, tier):
     prec = 2.0 ** -4 if mode == "rat" else TINY
     n = 0
     for lo, hi in itertools.product(GRID11, repeat=2):
-        ops = []
+        # one case per flag combination: the evaluation of a case ends at its first disagreement, and a
+        # changed comparison usually disagrees on the open ends before it is *wrong* on the closed ones
         for il, iu in itertools.product((0, 1), repeat=2):
+            ops = []
             ops.append("ic.new 0 %s %s %d %d %s" % (H(lo), H(hi), il, iu, H(prec)))
             # every pair, [+inf,+inf] / [-inf,-inf] included (formerly a known finding, now repaired:
             # corpus/C01/02-fixed-isEmpty-infinite.txt)
@@ -51,7 +53,7 @@ def interval_cases(mode, tier):
                     if a <= b:
                         ops.append("ic.includes 0 %s %s" % (H(a), H(b)))
             n += 1
-        cases.append(["case iv%d %s" % (len(cases), mode)] + ops)
+            cases.append(["case iv%d %s" % (len(cases), mode)] + ops)
     return cases
 
 
